@@ -612,24 +612,17 @@ func judgeRecord(k kase, e expectation, r captured, skipped *int64) []verdict {
 				}
 			}
 		}
+		// part K fills messages[].data, part H messages[].error_message
+		haveH, haveK = has('H'), has('K')
 		for _, m := range j.Messages {
 			if m.Data != nil {
-				haveK = true
 				listedK = append(listedK, m.Data.ID)
 				field("messages.data.msg", m.Data.Msg, fmt.Sprintf("m%d %s", m.Data.ID, p))
 				field("messages.data.data", m.Data.Data, fmt.Sprintf("d%d %s", m.Data.ID, p))
 			}
-			if m.ErrorMessage != "" {
-				haveH = true
-				for _, g := range idInErrorLog.FindAllStringSubmatch(m.ErrorMessage, -1) {
-					listedH = append(listedH, atoi(g[1]))
-				}
+			for _, g := range idInErrorLog.FindAllStringSubmatch(m.ErrorMessage, -1) {
+				listedH = append(listedH, atoi(g[1]))
 			}
-		}
-		haveH = haveH || has('H') && !has('K') // H alone: messages carry only the error text
-		haveK = haveK || has('K')
-		if has('K') && has('H') {
-			haveH = true
 		}
 	case "Native":
 		n := parseNative(r.bytes)
